@@ -215,4 +215,16 @@ CLAIMS['C02'] = {
     'note': _NOTE,
 }
 
+CLAIMS['C17'] = {
+    'text': 'Concurrent[...] matching: the specialisation predicate is extracted as one '
+            'boolean formula from the if/return chain and compared with the documented '
+            'formula by truth table over its (quantified) atoms, so any equivalent '
+            'arrangement passes; the return-path table of __subclasscheck__; delegation of '
+            '__instancecheck__; normalisation/caching through frozenset keys; specialisation '
+            'by child types; flattened(). The except-clause disagreement (language semantics) '
+            'is a genuine defect recorded as known finding. The predicate is finite, so '
+            'nothing else is left undecided.',
+    'note': _NOTE,
+}
+
 NOT_APPLICABLE = {}
